@@ -44,6 +44,8 @@ class Ev:
         self.binds = binds or {}
         self.guard = []
         self.qctx = "spec"
+        self.fork_node = None
+        self.forks = []
         self.facts = []       # typed-heap side facts collected in spec mode (see Interp.spec)
         self.assume = True
 
@@ -530,14 +532,24 @@ class Ev:
             return Val(a.t + b.t, ty)
         if isinstance(op, ast.Sub):
             return Val(a.t - b.t, ty)
+        uf = getattr(self.u.contract, "nla", "native") == "uf"
+        if uf and ty.k == "real" and isinstance(op, (ast.Mult, ast.Div)):
+            ca, cb = z3.simplify(a.t), z3.simplify(b.t)
+            if isinstance(op, ast.Mult) and not z3.is_rational_value(ca) and not z3.is_rational_value(cb):
+                return Val(num.use_rnl(self.u)[0](a.t, b.t), REAL)
+            if isinstance(op, ast.Div) and not z3.is_rational_value(cb) and not z3.is_rational_value(ca):
+                self.need(b.t != 0, "div-by-zero", node)
+                return Val(num.use_rnl(self.u)[1](a.t, b.t), REAL)
         if isinstance(op, ast.Mult):
             if ty.k == "int" and not z3.is_int_value(z3.simplify(a.t)) and not z3.is_int_value(z3.simplify(b.t)):
                 return Val(num.use_imul(self.u)(a.t, b.t), INT)
             return Val(a.t * b.t, ty)
         if isinstance(op, ast.Div):
-            ar = a.t if ty.k == "real" else z3.ToReal(a.t)
-            br = b.t if ty.k == "real" else z3.ToReal(b.t)
+            ar = a.t if ty.k == "real" else self.it.coerce(a, REAL, self.st, node, self.frame, spec=True).t
+            br = b.t if ty.k == "real" else self.it.coerce(b, REAL, self.st, node, self.frame, spec=True).t
             self.need(br != 0, "div-by-zero", node)
+            if uf and not z3.is_rational_value(z3.simplify(br)) and not z3.is_rational_value(z3.simplify(ar)):
+                return Val(num.use_rnl(self.u)[1](ar, br), REAL)
             return Val(ar / br, REAL)
         if isinstance(op, ast.FloorDiv):
             if ty.k != "int":
@@ -696,10 +708,18 @@ def pick_patterns(vs, exprs):
     cands = {}
     seen = set()
 
+    def has_var(t):
+        if t.get_id() in ids:
+            return True
+        return any(has_var(ch) for ch in t.children()) if z3.is_app(t) else False
+
     def clean(t):
-        """(vars contained, size) if t is built from selects / uninterpreted symbols / bound vars only, else None"""
+        """(vars contained, size) if t is built from selects / uninterpreted symbols / bound vars only, else None;
+        ground subterms may be anything (they are matched as a whole, modulo equality)"""
         if t.get_id() in ids:
             return {t.get_id()}, 1
+        if not has_var(t):
+            return set(), 1
         if z3.is_const(t):
             if t.decl().kind() != z3.Z3_OP_UNINTERPRETED and not z3.is_int_value(t):
                 return None
